@@ -102,4 +102,12 @@ CHECKS = {
         "solution path (closed form / eigen) was taken.",
    note="Trusted base: scipy expm, mpmath expm, the oracle's own K assembly (vf/ref/kinetics.py). K with complex / near-degenerate eigenvalues or cond(V)>1e8 is outside the property (skipped, counted).",
    technique="runtime monitoring: postcondition-style oracle (matrix exponential) on the real megacomplex evaluations over generated schemes; path recorders"),
+ "C05": dict(category="exploration",
+   text="Recording wrappers on the two Gaussian-IRF kernels (as bound in decay.util) and on Irf.parameter capture every kernel call of real megacomplex evaluations "
+        "over generated IRFs (1-3 Gaussians, broadcasting, scales, normalise, per-index shifts, dispersion orders 0-3, both dispersion variables, both axis "
+        "directions, rates x widths over seven decades, times from -100 to +1000 widths incl. the branch switch-over to the ulp); each kernel output point is "
+        "judged against a 40-digit mpmath convolution reference with a tolerance given by the function's own conditioning, the per-index kernel arguments against "
+        "the oracle's documented effective centres / widths, and each dispersed matrix slice against the index-independent model.",
+   note="Trusted base: mpmath (erfc, exp) at 40 digits; scipy erfcx only as pre-filter (sampled against mpmath). Backsweep excluded.",
+   technique="runtime monitoring: argument/return recorders on the numba kernels + pointwise multiprecision oracle"),
 }
